@@ -90,9 +90,9 @@ def oracle(f, arg, args):
         rest = arg[start:] if start <= n else ""
         return rest if ln is None else rest[:ln]
     if f == "replace":
-        if len(args) < 2 or args[0] == "":
+        if len(args) < 2:
             return None
-        return arg.replace(args[0], args[1])
+        return arg.replace(args[0], args[1])        # all occurrences; the empty needle occurs at every character boundary (also of the empty string)
     if f in ("bin", "hex", "oct"):
         v = is_i64(arg)
         if v is None:
@@ -186,7 +186,7 @@ def gen_calls(rng, n):
             calls.append((f, s, a if rng.random() < 0.9 else []))
         elif f == "replace":
             s = rng.choice(STRS)
-            calls.append((f, s, [rng.choice(["a", "aa", "ab", " ", "l", "é", "zz", s[:2] or "x"]), rng.choice(["", "X", "aa", "a", "日"])]))
+            calls.append((f, s, [rng.choice(["a", "aa", "ab", " ", "l", "é", "zz", s[:2] or "x", "", ""]), rng.choice(["", "X", "aa", "a", "日", "--"])]))         # incl. the empty needle (it occurs at every character boundary)
         elif f in ("concat", "concat_ws", "coalesce"):
             calls.append((f, rng.choice(STRS[:8] + ["", ", ", "-"]), [rng.choice(STRS[:10]) for _ in range(rng.randint(0, 3))]))
         elif f == "format_time":
